@@ -215,7 +215,9 @@ pub mod merge_channel {
 
 /// C19: a real `ClusterWorker::work()` fed by a real merge channel (no network).
 pub mod cluster_worker {
-    pub use crate::cluster::worker_verif::{ProducerRig, TakenUpdate, WorkerRig};
+    pub use crate::cluster::worker_verif::{
+        ProducerRig, TakenUpdate, WorkerRig, use_keyspace_result_labels,
+    };
 }
 
 /// C13: the speculative execution driver loop with synthetic executions.
